@@ -532,8 +532,9 @@ class C17(Prop):
     theorems = ["C17_valid_edit_keeps_wf", "C17_group_effect", "C17_replace_only_renames",
                 "C17_labels_refresh_consistent", "C17_every_history",
                 "C17_transform_after_edit_qualitative", "C17_quantitative_upward_merge",
-                "C17_downward_merge_refuted", "C17_nan_regroup_refuted",
-                "C17_rejected_edit_can_break_refuted"]
+                "C17_transform_after_edit_quantitative", "C17_downward_merge_refuted",
+                "C17_nan_regroup_refuted", "C17_rejected_edit_can_break_refuted",
+                "C17_valid_history_decidable_sound"]
     rule = ("one case = one real fit (BinaryCarver / ContinuousCarver / Discretizer / Quantitative- / "
             "QualitativeDiscretizer; 40-200 rows, 1-3 quantitative / ordinal / categorical features, "
             "NaN share 0-30%, output_dtype str/float, dropna True/False, 15% rebuilt from JSON) + a "
@@ -573,7 +574,7 @@ class C17(Prop):
         return cs
 
     def generate(self, rng, tier):
-        n = 300 if tier == "quick" else 4000
+        n = 300 if tier == "quick" else 8000
         cases = []
         for i in range(n):
             r = i % 20
